@@ -267,7 +267,7 @@ def client_unit(M):
             a = c.a
         else:
             a, Bv, saltv = case(lz, seed)
-            saved = real_srp.Srp.generate_private_key
+            saved = real_srp.Srp.__dict__["generate_private_key"]  # the staticmethod object itself, so that restoring it keeps it static
             real_srp.Srp.generate_private_key = staticmethod(lambda: a)
             try:
                 c = M.srp.SrpClient("Pair-Setup", CODE)
@@ -317,7 +317,7 @@ def wrong_code_unit(M):
             a = c.a
         else:
             a, Bv, saltv = case("none", seed)
-            saved = real_srp.Srp.generate_private_key
+            saved = real_srp.Srp.__dict__["generate_private_key"]  # the staticmethod object itself, so that restoring it keeps it static
             real_srp.Srp.generate_private_key = staticmethod(lambda: a)
             try:
                 c = M.srp.SrpClient("Pair-Setup", "999-99-999")
@@ -349,7 +349,7 @@ def two_exchanges_unit(M):
         else:
             a, Bv, saltv = case("none", seed)
             saltv ^= 0x5A5A5A5A  # a salt no other unit uses in this process (process-wide state must come from this unit's first exchange)
-            saved = real_srp.Srp.generate_private_key
+            saved = real_srp.Srp.__dict__["generate_private_key"]  # the staticmethod object itself, so that restoring it keeps it static
             real_srp.Srp.generate_private_key = staticmethod(lambda: a)
             try:
                 for code in ("999-99-999", CODE):
@@ -387,7 +387,7 @@ def protocol_unit(M):
             a = SymInt(z3.Int("a_secret"))
         else:
             a, Bv, saltv = case(lz, seed)
-            saved = real_srp.Srp.generate_private_key
+            saved = real_srp.Srp.__dict__["generate_private_key"]  # the staticmethod object itself, so that restoring it keeps it static
             real_srp.Srp.generate_private_key = staticmethod(lambda: a)
             try:
                 gen = M.proto.perform_pair_setup_part2(CODE, hap.IOS_ID, bytearray(be(saltv, 16)), bytearray(be(Bv, 384)))
